@@ -17,12 +17,14 @@ ASSUMPTIONS = [
     "are asserted with a 1e-9 relative tolerance)",
     "constructibility / ranking: the real constructor is executed for the listed (players, limit) pairs and the two ranking tables are checked "
     "on the concrete result (no symbolic domain: reachability of the set-up; an exception is a violation)",
+    "save/load: after a concrete prefix the minimiser is saved (real params.json on a scratch directory; np.save/np.load = array store), loaded, "
+    "and original and loaded both run one iteration with one more concrete iteration and then one with FREE non-negative losses: all tables / strategies z3-equal",
     "iterations: pre-state = the state reached by k0 in {0,1,2} real iterations with concrete non-negative loss vectors from a listed set; then ONE "
     "iteration whose terminal losses are free non-negative reals (so every claim is decided for all loss vectors of that last iteration)",
 ]
-OUTSIDE = ["save/load (np.save/np.load, float32: C / I-O boundary)", "float32 rounding", "pre-states not reached by the listed concrete prefixes "
+OUTSIDE = ["the .npy byte format (np.save / np.load are replaced by an array store with the round-trip contract; params.json is real)", "float32 rounding", "pre-states not reached by the listed concrete prefixes "
            "(no unbounded induction: a fully symbolic pre-state makes the query nonlinear and did not finish)", "n=5 beyond construction and ranking", "n=4 limits > 2 for iterations"]
-STUBS = ["np proxy", "SymArray"]
+STUBS = ["np proxy", "SymArray", "np.save/np.load array store (symbolic world; the float64 replay uses the real ones on a scratch directory)"]
 
 
 def bounds_text(tier):
@@ -62,6 +64,14 @@ def tasks(tier, seed):
         for plus in (False, True):
             out.append({"key": f"iterate/n{n_}/limit{lim}/{'plus' if plus else 'plain'}/prefix=[]/above", "kind": "iterate", "n": n_, "limit": lim,
                         "plus": plus, "prefix": []})
+    # a saved-then-loaded minimiser continues identically (np.save / np.load replaced by an array store, see STUBS)
+    sl = [(3, 1, [[1, 0, 0]]), (3, 2, [[1, 0, 0], [0, 3, 1]]), (3, 2, []), (3, 3, [[2]]), (3, 4, [[1]]), (4, 1, [[1] + [0] * 9])]
+    if tier == "thorough":
+        sl += [(3, 2, [[1, 2, 0], [0, 0, 1], [2, 2, 2]]), (3, 1, [[0, 0, 0]]), (4, 2, [[0, 2] + [1] * 43]), (4, 11, [[3]])]
+    for n_, lim, pf in sl:
+        for plus in (False, True):
+            out.append({"key": f"saveload/n{n_}/limit{lim}/{'plus' if plus else 'plain'}/prefix#{len(pf)}", "kind": "saveload", "n": n_, "limit": lim,
+                        "plus": plus, "prefix": pf})
     for lim in ((1,) if tier == "quick" else (1, 2)):
         for plus in (False, True):
             nterm = 10 if lim == 1 else 45
@@ -79,7 +89,7 @@ def _nterm(n, limit):
 
 
 def setup(params, inp, lg):
-    if params["kind"] != "iterate":
+    if params["kind"] not in ("iterate", "saveload"):
         return []
     return [lg.ge(inp.real(f"t{i}"), 0) for i in range(_nterm(params["n"], params["limit"]))]
 
@@ -105,6 +115,8 @@ def scenario(pk, params, inp):
         return {"viable": int(m.viable_metacoalitions), "rank_to_id": r2i, "id_to_rank_of_rank_to_id": back,
                 "minimizers": int(m.number_of_regret_minimizers), "coalitions": int(m.number_of_coalitions),
                 "regret_shape": list(m.cumulative_regret.shape), "plus_flag": bool(plus.plus)}
+    if params["kind"] == "saveload":
+        return _saveload(pk, params, inp)
     m = R.GameRegretMinimizer(n, limit, plus=params["plus"])
     bottom, viable = _bottom(pk, n, limit)
     nt = len(bottom)
@@ -132,8 +144,110 @@ def scenario(pk, params, inp):
             "iteration": int(m.iteration)}
 
 
+class _ArrayStore:
+    """Symbolic world only: np.save / np.load inside regret.py.  Contract: what np.save wrote is what np.load returns (shape, values; a
+    copy, never an alias); '.npy' is appended when missing; loading what was never saved raises FileNotFoundError."""
+
+    def __init__(self):
+        self.files = {}
+
+    @staticmethod
+    def _name(path):
+        import os
+        p = os.fspath(path)
+        return p if p.endswith(".npy") else p + ".npy"
+
+    def save(self, path, arr, *a, **k):
+        import numpy as np
+        from symx.arrays import SymArray
+        self.files[self._name(path)] = np.array(np.asarray(arr).view(np.ndarray), dtype=object, copy=True).view(SymArray)
+        open(self._name(path), "wb").close()
+
+    def load(self, path, *a, **k):
+        import os
+        p = os.fspath(path)
+        if p not in self.files:
+            raise FileNotFoundError(p)
+        return self.files[p].copy()
+
+
+def _snapshot(pk, m, viable):
+    nrm = int(m.number_of_regret_minimizers)
+    nodes = []
+    for r in range(nrm):
+        mid = int(m.meta_rank_to_id[r])
+        used_pids = [i for i in range(m.number_of_coalitions) if mid >> i & 1]
+        path = [pk.coalitions.Coalition(viable[i]) for i in used_pids]
+        nodes.append({"cur": list(m.regret_matching_strategy(int(mid))), "avg": list(m.get_average_strategy(path)),
+                      "reg": [m.cumulative_regret[r][a] for a in range(m.number_of_coalitions)],
+                      "cum": [m.cumulative_strategy[r][a] for a in range(m.number_of_coalitions)]})
+    return {"iteration": int(m.iteration), "plus": bool(m.plus), "players": int(m.number_of_players), "limit": int(m.limit_of_revealed),
+            "minimizers": nrm, "nodes": nodes}
+
+
+def _saveload(pk, params, inp):
+    import shutil
+    import tempfile
+    from pathlib import Path
+
+    import numpy as np
+    n, limit = params["n"], params["limit"]
+    R = pk.regret
+    if pk.symbolic:
+        store = _ArrayStore()
+        R.np.save, R.np.load = store.save, store.load
+    bottom, viable = _bottom(pk, n, limit)
+    nt = len(bottom)
+
+    def conc(pf):
+        return np.array([inp.const(x) if pk.symbolic else float(x) for x in pf], dtype=object if pk.symbolic else float)
+    t = np.empty(nt, dtype=object if pk.symbolic else float)
+    for i in range(nt):
+        t[i] = inp.real(f"t{i}")
+    root = tempfile.mkdtemp(prefix="c14_")
+    try:
+        m = R.GameRegretMinimizer(n, limit, plus=params["plus"])
+        for pf in params["prefix"]:
+            m.regret_min_iteration(conc(pf), bottom)
+        m.save(Path(root) / "rm" / "nested")
+        at_save = _snapshot(pk, m, viable)
+        loaded = R.GameRegretMinimizer.load(Path(root) / "rm" / "nested")
+        at_load = _snapshot(pk, loaded, viable)
+        # both continue with one more concrete iteration and then the symbolic one (the plus variant weighs by the iteration count);
+        # the symbolic iteration comes last so that every term stays linear in the free losses
+        for g in (m, loaded):
+            g.regret_min_iteration(conc([(i % 3) + 1 for i in range(nt)]), bottom)
+            g.regret_min_iteration(t.copy(), bottom)
+        cont_orig, cont_loaded = _snapshot(pk, m, viable), _snapshot(pk, loaded, viable)
+        # the files describe the moment of the save: the original moving on must not change what a later load returns,
+        # and a second save into the same directory replaces the first
+        again = _snapshot(pk, R.GameRegretMinimizer.load(Path(root) / "rm" / "nested"), viable)
+        m.save(Path(root) / "rm" / "nested")
+        latest = _snapshot(pk, R.GameRegretMinimizer.load(Path(root) / "rm" / "nested"), viable)
+    finally:
+        shutil.rmtree(root, ignore_errors=True)
+    return {"at_save": at_save, "at_load": at_load, "cont_orig": cont_orig, "cont_loaded": cont_loaded, "again": again, "latest": latest}
+
+
+def _snap_equal(lg, a, b, tol=None):
+    if any(a[k] != b[k] for k in ("iteration", "plus", "players", "limit", "minimizers")) or len(a["nodes"]) != len(b["nodes"]):
+        return False
+    parts = []
+    for x, y in zip(a["nodes"], b["nodes"]):
+        for k in ("cur", "avg", "reg", "cum"):
+            if len(x[k]) != len(y[k]):
+                return False
+            parts += [lg.eq(p, q) for p, q in zip(x[k], y[k])]
+    return lg.And(parts)
+
+
 def claims(params, inp, out, lg):
     from math import comb
+    if params["kind"] == "saveload":
+        return [("loaded-equals-saved", _snap_equal(lg, out["at_save"], out["at_load"]), "C14/saveload/loaded-differs"),
+                ("loaded-continues-identically", _snap_equal(lg, out["cont_orig"], out["cont_loaded"]), "C14/saveload/continues-differently"),
+                ("files-describe-the-moment-of-the-save", _snap_equal(lg, out["at_save"], out["again"]), "C14/saveload/aliased"),
+                ("second-save-replaces-the-first", _snap_equal(lg, out["cont_orig"], out["latest"]), "C14/saveload/stale-after-resave")]
     n, limit = params["n"], params["limit"]
     nc = 2 ** n - n - 2
     cl = []
@@ -182,6 +296,9 @@ def claims(params, inp, out, lg):
 
 
 def canaries(params, inp, out, lg):
+    if params["kind"] == "saveload":
+        # false on purpose: continuing would have to change nothing
+        return [("canary-continuing-changes-nothing", _snap_equal(lg, out["at_save"], out["cont_orig"]))]
     if params["kind"] != "iterate":
         return []
     # false on purpose: the root's current strategy would have to stay uniform after any iteration
@@ -204,7 +321,7 @@ def signature(params, v):
 
 
 def test_vectors(params):
-    if params["kind"] != "iterate":
+    if params["kind"] not in ("iterate", "saveload"):
         return []
     rnd = random.Random(params["key"])
     nt = _nterm(params["n"], params["limit"])
